@@ -26,6 +26,16 @@ HINTS = {
          'next; a change in `__init__`, a property setter, `__eq__` or a copy method that the anchored functions rely on. Each of the three '
          'seeds must sit in a different function and use a different one of these mechanisms; prefer functions that are NOT named in the anchors '
          'but are on the path from the public API to them.',
+    '6': 'Make the break need something SPECIFIC to manifest. Use three different ones of these four kinds: (i) TWO cooperating edits in '
+         'different functions (preferably different files) that each look harmless alone - a helper that changes its return convention or '
+         'units slightly and a caller that is adapted almost everywhere, a default changed in one place and relied on in another, an '
+         'axis / ordering / naming convention changed consistently in the writer but not in one of the readers; (ii) a multi-step history - '
+         'the second call, a call after an exception was raised and caught, an object reused after it was passed to another API, operations '
+         'in an unusual but legal order; (iii) an exception or early exit at a particular point that leaves object state half-updated so '
+         'that the NEXT operation misbehaves; (iv) an unusual but legal input of the quantifier - a single element, all-equal values, a value '
+         'exactly on a boundary, negative zero, very large or very small numbers, ids / strings with unusual characters, arrays that are '
+         'views, non-contiguous, of another dtype, or plain Python lists. At least one of the three seeds must be of kind (i). Each seed must '
+         'sit in different functions from the others.',
 }
 prop = None
 for line in open(os.path.join(HERE, 'properties.jsonl')):
